@@ -75,6 +75,9 @@ class UBase(Equation):
         self.ia = ia
         self.fb = fb
         self.flag = flag
+        # derived, "private" attributes: instance attributes like any other
+        self._fa2 = fa*fa
+        self._n = ia + 1
         super(UBase, self).__init__(dest, sources)
 
     def _get_helpers_(self):
@@ -271,6 +274,12 @@ def family_f():
         'd_o[d_idx*16 + 1] += h_nested(s_m[s_idx], d_m[d_idx])',
         'd_o[d_idx*16 + 2] += h_trace(XIJ, 3)',
         'd_o[d_idx*16 + 3] += h_scale(self.fa)*dt + t',
+    ])])
+    add('F_private_attr', [method('initialize', [
+        'd_o[d_idx*16] = self._fa2',
+        'd_o[d_idx*16 + 1] = self._n',
+    ]), method('loop', [
+        'd_o[d_idx*16 + 2] += self._fa2*s_m[s_idx] + self._n',
     ])])
     add('F_attr_changed', [method('initialize', [
         'd_o[d_idx*16] = self.fa',
@@ -560,8 +569,22 @@ def run_pack(pack):
         nn = LinkedListNNPS(dim=pack['dim'], particles=arrays,
                             radius_scale=kernel.radius_scale)
         if side == 'compiled':
-            ae = AccelerationEval(arrays, groups, kernel)
+            # the evaluator is built on a decoy set of arrays (same names
+            # and properties, other values in every property and constant)
+            # and then handed the real ones: everything it reads or writes
+            # afterwards must be the real arrays
+            decoy = make_arrays(pack['dim'], nslot)
+            for pa in decoy:
+                for cn in pa.constants:
+                    v = pa.get_carray(cn).get_npy_array()
+                    v[:] = 2.0 * v + 1.0
+                for pn in ('m', 'rho', 'u', 'v', 'w', 'p', 'h'):
+                    if pn in pa.properties:
+                        v = pa.get(pn, only_real_particles=False)
+                        v[:] = 1.5 * v + 0.25
+            ae = AccelerationEval(decoy, groups, kernel)
             SPHCompiler(ae, None).compile()
+            ae.update_particle_arrays(arrays)
             ae.set_nnps(nn)
             ae.compute(0.3, 0.07)
             sides[side] = dict(results)
